@@ -1583,3 +1583,274 @@ let cinit n0 =
      | O -> CSDone
      | S _ -> CSGate O); cCnt = O; cR = rinit; cDeliv = []; cErrA = false;
     cErrR = false; cEp = EpNone }
+
+type aph =
+| AIdle
+| AGate of nat
+| ARead
+
+type rph =
+| RIdle
+| RRead of nat
+
+type ast = { xPausing : bool; xA : aph; xAq : nat; xAcked : nat; xS : 
+             csph; xCnt : nat; xR : rph; xRq : wline list; xDeliv : nat list;
+             xBad : bool; xEp : epi }
+
+(** val first_data : wline list -> (nat * wline list) option **)
+
+let rec first_data = function
+| [] -> None
+| w :: q' -> (match w with
+              | WLKeep -> first_data q'
+              | WLData k -> Some (k, q'))
+
+(** val x_ack : ast -> ast **)
+
+let x_ack a =
+  match a.xA with
+  | ARead ->
+    { xPausing = a.xPausing; xA = AIdle; xAq = a.xAq; xAcked = (S a.xAcked);
+      xS = a.xS; xCnt = a.xCnt; xR = a.xR; xRq = a.xRq; xDeliv = a.xDeliv;
+      xBad = a.xBad; xEp = a.xEp }
+  | _ ->
+    { xPausing = a.xPausing; xA = a.xA; xAq = (S a.xAq); xAcked = a.xAcked;
+      xS = a.xS; xCnt = a.xCnt; xR = a.xR; xRq = a.xRq; xDeliv = a.xDeliv;
+      xBad = a.xBad; xEp = a.xEp }
+
+(** val x_deliver : ast -> rph -> wline list -> nat -> ast **)
+
+let x_deliver a r q k =
+  x_ack { xPausing = a.xPausing; xA = a.xA; xAq = a.xAq; xAcked = a.xAcked;
+    xS = a.xS; xCnt = a.xCnt; xR = r; xRq = q; xDeliv =
+    (app a.xDeliv (k :: [])); xBad = a.xBad; xEp = a.xEp }
+
+(** val x_setR : ast -> rph -> wline list -> ast **)
+
+let x_setR a r q =
+  { xPausing = a.xPausing; xA = a.xA; xAq = a.xAq; xAcked = a.xAcked; xS =
+    a.xS; xCnt = a.xCnt; xR = r; xRq = q; xDeliv = a.xDeliv; xBad = a.xBad;
+    xEp = a.xEp }
+
+(** val x_rarrive : cfg -> ast -> wline -> ast **)
+
+let x_rarrive cf a l =
+  match a.xR with
+  | RIdle -> x_setR a RIdle (app a.xRq (l :: []))
+  | RRead _ ->
+    (match l with
+     | WLKeep -> x_setR a (RRead cf.cT) a.xRq
+     | WLData k -> x_deliver a RIdle a.xRq k)
+
+(** val x_rcall : cfg -> ast -> ast **)
+
+let x_rcall cf a =
+  match first_data a.xRq with
+  | Some p -> let (k, q') = p in x_deliver a RIdle q' k
+  | None -> x_setR a (RRead cf.cT) []
+
+(** val x_setA : ast -> aph -> nat -> nat -> ast **)
+
+let x_setA a p q acked =
+  { xPausing = a.xPausing; xA = p; xAq = q; xAcked = acked; xS = a.xS; xCnt =
+    a.xCnt; xR = a.xR; xRq = a.xRq; xDeliv = a.xDeliv; xBad = a.xBad; xEp =
+    a.xEp }
+
+(** val x_aread : ast -> ast **)
+
+let x_aread a =
+  match a.xAq with
+  | O -> x_setA a ARead O a.xAcked
+  | S q -> x_setA a AIdle q (S a.xAcked)
+
+(** val x_acall : cfg -> ast -> ast **)
+
+let x_acall cf a =
+  if a.xPausing then x_setA a (AGate cf.cSL) a.xAq a.xAcked else x_aread a
+
+(** val x_setS : ast -> csph -> ast **)
+
+let x_setS a p =
+  { xPausing = a.xPausing; xA = a.xA; xAq = a.xAq; xAcked = a.xAcked; xS = p;
+    xCnt = a.xCnt; xR = a.xR; xRq = a.xRq; xDeliv = a.xDeliv; xBad = a.xBad;
+    xEp = a.xEp }
+
+(** val x_setCnt : ast -> nat -> ast **)
+
+let x_setCnt a c =
+  { xPausing = a.xPausing; xA = a.xA; xAq = a.xAq; xAcked = a.xAcked; xS =
+    a.xS; xCnt = c; xR = a.xR; xRq = a.xRq; xDeliv = a.xDeliv; xBad = a.xBad;
+    xEp = a.xEp }
+
+(** val x_bad : ast -> ast **)
+
+let x_bad a =
+  { xPausing = a.xPausing; xA = a.xA; xAq = a.xAq; xAcked = a.xAcked; xS =
+    a.xS; xCnt = a.xCnt; xR = a.xR; xRq = a.xRq; xDeliv = a.xDeliv; xBad =
+    true; xEp = a.xEp }
+
+(** val x_flags : ast -> bool -> epi -> ast **)
+
+let x_flags a pa e =
+  { xPausing = pa; xA = a.xA; xAq = a.xAq; xAcked = a.xAcked; xS = a.xS;
+    xCnt = a.xCnt; xR = a.xR; xRq = a.xRq; xDeliv = a.xDeliv; xBad = a.xBad;
+    xEp = e }
+
+(** val x_gate : cfg -> ast -> nat -> ast **)
+
+let x_gate cf a k =
+  if a.xPausing
+  then x_rarrive cf (x_setS a (CSIn (k, (SSleep cf.cGL)))) WLKeep
+  else x_setS a (CSIn (k, SPassed))
+
+(** val x_live : nat -> ast -> bool **)
+
+let x_live n0 a =
+  Nat.ltb (length a.xDeliv) n0
+
+(** val x_quiescent : nat -> nat -> ast -> bool **)
+
+let x_quiescent n0 w a =
+  (&&)
+    ((&&)
+      (match a.xS with
+       | CSGate _ -> false
+       | CSIn (_, p) -> (match p with
+                         | SSleep _ -> true
+                         | _ -> false)
+       | CSPush _ -> Nat.leb w a.xCnt
+       | CSDone -> true)
+      (negb (match a.xR with
+             | RIdle -> x_live n0 a
+             | RRead _ -> false)))
+    (negb (match a.xA with
+           | AIdle -> Nat.ltb O a.xCnt
+           | _ -> false))
+
+(** val x_tickR : ast -> ast **)
+
+let x_tickR a =
+  match a.xR with
+  | RIdle -> a
+  | RRead t0 ->
+    (match t0 with
+     | O -> x_bad a
+     | S n0 ->
+       (match n0 with
+        | O -> x_bad a
+        | S t -> x_setR a (RRead (S t)) a.xRq))
+
+(** val x_tickA : cfg -> ast -> ast **)
+
+let x_tickA cf a =
+  match a.xA with
+  | AIdle -> a
+  | AGate j0 ->
+    (match j0 with
+     | O -> x_acall cf a
+     | S n0 ->
+       (match n0 with
+        | O -> x_acall cf a
+        | S j -> x_setA a (AGate (S j)) a.xAq a.xAcked))
+  | ARead -> x_bad a
+
+(** val x_tickS : cfg -> ast -> ast **)
+
+let x_tickS cf a =
+  match a.xS with
+  | CSIn (k, p) ->
+    (match p with
+     | SSleep slp ->
+       (match slp with
+        | O -> x_gate cf a k
+        | S n0 ->
+          (match n0 with
+           | O -> x_gate cf a k
+           | S j -> x_setS a (CSIn (k, (SSleep (S j))))))
+     | _ -> a)
+  | _ -> a
+
+(** val astep : cfg -> nat -> nat -> nat -> ast -> cev -> ast option **)
+
+let astep cf n0 w p a = function
+| XTick ->
+  if (&&) (x_quiescent n0 w a)
+       (match a.xEp with
+        | EpPausing e -> Nat.ltb e p
+        | _ -> true)
+  then let a3 = x_tickS cf (x_tickA cf (x_tickR a)) in
+       Some (x_flags a3 a3.xPausing (ep_tick cf a.xEp))
+  else None
+| XPause ->
+  (match a.xEp with
+   | EpResumed (_, _) -> None
+   | x0 -> Some (x_flags a true (ep_pause x0)))
+| XResume ->
+  (match a.xEp with
+   | EpPausing e ->
+     if a.xPausing then Some (x_flags a false (EpResumed (e, O))) else None
+   | _ -> None)
+| XSCall -> (match a.xS with
+             | CSGate k -> Some (x_gate cf a k)
+             | _ -> None)
+| XSWrite ->
+  (match a.xS with
+   | CSIn (k, p0) ->
+     (match p0 with
+      | SPassed -> Some (x_rarrive cf (x_setS a (CSPush k)) (WLData k))
+      | _ -> None)
+   | _ -> None)
+| XSPush ->
+  (match a.xS with
+   | CSPush k ->
+     if Nat.ltb a.xCnt w
+     then Some
+            (x_setS (x_setCnt a (S a.xCnt))
+              (if Nat.ltb (S k) n0 then CSGate (S k) else CSDone))
+     else None
+   | _ -> None)
+| XRCall ->
+  (match a.xR with
+   | RIdle -> if x_live n0 a then Some (x_rcall cf a) else None
+   | RRead _ -> None)
+| XATake ->
+  (match a.xA with
+   | AIdle ->
+     (match a.xCnt with
+      | O -> None
+      | S c -> Some (x_acall cf (x_setCnt a c)))
+   | _ -> None)
+
+(** val arun : cfg -> nat -> nat -> nat -> ast -> cev list -> ast option **)
+
+let rec arun cf n0 w p a = function
+| [] -> Some a
+| x :: xs' ->
+  (match astep cf n0 w p a x with
+   | Some a' -> arun cf n0 w p a' xs'
+   | None -> None)
+
+(** val ainit : nat -> ast **)
+
+let ainit n0 =
+  { xPausing = false; xA = AIdle; xAq = O; xAcked = O; xS =
+    (match n0 with
+     | O -> CSDone
+     | S _ -> CSGate O); xCnt = O; xR = RIdle; xRq = []; xDeliv = []; xBad =
+    false; xEp = EpNone }
+
+(** val abs_of : cstate -> ast **)
+
+let abs_of s =
+  { xPausing = s.cA.core.pausing; xA =
+    (match s.cA.ph with
+     | PIdle -> AIdle
+     | PGate (_, j) -> AGate j
+     | PRead _ -> ARead); xAq = (length s.cA.queue); xAcked = s.cAcked; xS =
+    s.cS; xCnt = s.cCnt; xR =
+    (match s.cR.ph with
+     | PRead _ -> RRead (match s.cR.core.tmo with
+                         | Some t -> t
+                         | None -> O)
+     | _ -> RIdle); xRq = s.cR.queue; xDeliv = s.cDeliv; xBad =
+    ((||) s.cErrA s.cErrR); xEp = s.cEp }
